@@ -68,6 +68,8 @@ def run(rep):
     rep.guard(x12, rep, w)
     rep.guard(x13, rep, w)
     rep.guard(x14, rep, w)
+    import c04_narrow
+    rep.guard(c04_narrow.b4, rep, w)    # handler offsets that do not fit 16 bits are reported, not truncated (the handler would point into other code)
     import c15
     rep.guard(c15.n1, rep, w)     # the exception-in-flight flag does not survive into the next run (a later try statement would re-raise a phantom)
 
